@@ -340,7 +340,12 @@ prop("C07", engine="e1", program="c07", rule=(
     "script of dlopen / dlclose / update steps; after each update every "
     "tuple of the classes then known is called and the transcript compared "
     "with a brute-force model of the modules loaded at that point"),
-    quick=dict(cases=6000, size=60), thorough=dict(cases=60000, size=100))
+    quick=dict(cases=6000, size=60,
+               also=[dict(engine="e5", variants=["catalogs"], workers=2,
+                          cases=3000)]),
+    thorough=dict(cases=60000, size=100,
+                  also=[dict(engine="e5", variants=["catalogs"], workers=2,
+                             cases=100000)]))
 prop("C08", engine="e1", rule=(
     "one random graph registered canonically and through a random legal "
     "presentation (1..3 records per class, any superset of the direct bases "
@@ -1183,7 +1188,7 @@ def write_manifest():
              "driven directly over generated id-set histories (also built "
              "as the libFuzzer target e4f)"},
             {"name": "e5", "path": "harness/e5",
-             "serves_properties": ["C14", "C18"],
+             "serves_properties": ["C07", "C14", "C18"],
              "kind_free_text": "static_list and the policy catalogs against "
              "a vector model; bounded exhaustive + random sequences; "
              "catalog isolation between policies (also built as the "
